@@ -73,6 +73,7 @@ class MI:
         self.comp = []            # regions with a completion evaluation pending (backmp11: per entered state)
         self.epoch = 0            # configuration epoch (any external transition at or below this level)
         self.blocked_swallow = 0
+        self.cg_seen = {}
         rows = list(m['table'])
         self.has_completion = any(r['ev'] is None for r in rows)
         self.has_blocking = any(s['kind'] in ('terminate', 'interrupt') for s in m['states'].values())
@@ -120,6 +121,7 @@ class Acceptor:
         self.dispatched_keys = set()
         self.tolerate = set()      # rule ids that are reported but do not abort (known findings mode)
         self.threw = False
+        self.gsite_by_name = {g['name']: g for g in self.ix.gsites}
 
     # ------------------------------------------------------------------ coverage
     def hit(self, prop, key):
@@ -158,8 +160,42 @@ class Acceptor:
             ev = ev[4:]
         return ev
 
+    def skip_completion_retries(self):
+        """back / back11 re-evaluate the guards of completion rows of states that stay active after every
+        handled event (also through forwarding of the completion event into active submachines); the
+        guard values are fixed per entry of the source state, so such a re-evaluation is always false
+        and changes nothing (C10 quantifier).  Those records are transparent."""
+        if self.mp:
+            return
+        while True:
+            got = self.peek()
+            if got is None or got.k != 'G' or got.v != 0 or got.ev != 'none':
+                return
+            gs = self.gsite_by_name.get(got.site)
+            if gs is None or gs['cg_src'] is None:
+                return
+            mname, sname = gs['cg_src'].split('.')
+            root = self.inst.get(self.cur_tag)
+            mi = self.find_instance(root, mname) if root else None
+            if mi is None or not mi.running or sname not in mi.active or not self.was_evaluated(mi, sname, got.site):
+                return
+            self.counts['completion_retries'] = self.counts.get('completion_retries', 0) + 1
+            self.take()
+
+    def was_evaluated(self, mi, sname, gsite):
+        return gsite in mi.cg_seen.get(sname, ())
+
+    def find_instance(self, root, mname):
+        for x in root.all():
+            if x.name == mname:
+                return x
+        return None
+
     def expect_cb(self, kind, site, mi, label, id_, tags, rule, v=None, own_entry=False):
         got = self.peek()
+        if got is not None and got.k == 'G' and got.site != site:
+            self.skip_completion_retries()
+            got = self.peek()
         if got is None or got.k != kind or got.site != site:
             self.reject(tags, rule, '%s %s %s:%s' % (kind, site, label, id_), got)
         ev = self.norm_ev(got)
@@ -442,6 +478,8 @@ class Acceptor:
             if isinstance(g, int):
                 gs = self.ix.gsites[next(sites)]
                 rec = self.expect_cb('G', gs['name'], mi, lab, occ.id, tags | {'C14'} if not isinstance(row['guard'], int) else tags, 'guard')
+                if gs['cg_src'] is not None:
+                    mi.cg_seen.setdefault(gs['cg_src'].split('.')[1], set()).add(gs['name'])
                 if gs['cg_src'] is None and self.gmask is not None and rec.v != ((self.gmask >> (gs['atom'] & 63)) & 1):
                     self.reject({'HARNESS'}, 'guard-value', 'mask bit', rec)
                 self.after_cb('G', gs['name'], mi)
@@ -513,9 +551,12 @@ class Acceptor:
             x = x.parent
 
     def note_entered(self, mi, r, sn):
+        mi.cg_seen.pop(sn, None)
         if mi.kind(sn) != 'sub' and any(self.ix.row_src_state(rw) == sn and rw['ev'] is None for rw in mi.m['table']):
             if self.mp:
                 mi.comp.insert(0, r)
+            else:
+                mi.comp.append(r)
 
     def subconfig(self, mi, sn):
         if mi.kind(sn) == 'sub':
@@ -624,8 +665,6 @@ class Acceptor:
             child.processing = False
             raise
         child.processing = False
-        if not self.mp:
-            child.comp = list(range(child.n)) if child.has_completion else []
         cont = None
         if kind == 'entry':
             self.gseq += 1
@@ -641,43 +680,30 @@ class Acceptor:
     # ------------------------------------------------------------------ post-processing of a step
     def post(self, mi, res, src):
         handled = bool(res & T)
-        if not self.mp:
-            if handled and mi.has_completion:
-                mi.comp = list(range(mi.n))
         self.schedule(mi, after_handled=handled, src=src)
 
     def completion_round(self, mi):
         """evaluate pending completion transitions of mi (C10); returns True if one fired"""
         fired = False
         none = Occ('none', -1, self.gseq)
-        if self.mp:
-            while mi.comp:
-                r = mi.comp.pop(0)
-                if self.blocked_completion(mi):
-                    continue
-                rows = self.candidates(mi, mi.active[r], 'none')
-                if rows:
-                    mi.processing = True
-                    try:
-                        res = self.chain(mi, r, rows, none, {'C10', 'C01'})
-                    except ModelThrow as t:
-                        self.expect_cb('XC', mi.name, mi, 'none', -1, {'C12'}, 'exception-caught', v=t.seq)
-                        self.after_cb('C', mi.name, mi)
-                        res = 0
-                    mi.processing = False
-                    self.hit('C10', (mi.name, mi.active[r], res & 7, len(mi.queue), len(mi.deferred)))
-                    fired |= bool(res & T)
-            return fired
-        # back / back11: a round dispatches the completion event to every region, and repeats while handled
         while mi.comp:
-            mi.comp = []
-            if self.blocked(mi, 'none-check') == 'terminate' or self.blocked_completion(mi):
-                return fired
-            res = self.step(mi, none, 'direct')
-            self.hit('C10', (mi.name, tuple(mi.active), res & 7, len(mi.queue), len(mi.deferred)))
-            if res & T:
-                fired = True
-                mi.comp = list(range(mi.n))
+            r = mi.comp.pop(0)
+            if self.blocked_completion(mi):
+                continue
+            rows = self.candidates(mi, mi.active[r], 'none')
+            if not rows:
+                continue
+            mi.processing = True
+            try:
+                res = self.chain(mi, r, rows, none, {'C10', 'C01'})
+            except ModelThrow as t:
+                self.expect_cb('XC', mi.name, mi, 'none', -1, {'C12'}, 'exception-caught', v=t.seq)
+                self.after_cb('C', mi.name, mi)
+                self.threw = True
+                res = 0
+            mi.processing = False
+            self.hit('C10', (mi.name, mi.active[r], res & 7, len(mi.queue), len(mi.deferred)))
+            fired |= bool(res & T)
         return fired
 
     def blocked_completion(self, mi):
@@ -731,9 +757,6 @@ class Acceptor:
                 self.post_queued(mi, res)
 
     def post_queued(self, mi, res):
-        if not self.mp:
-            if (res & T) and mi.has_completion:
-                mi.comp = list(range(mi.n))
         self.completion_round(mi)
 
     def next_pending(self, mi, nxt):
@@ -913,9 +936,12 @@ class Acceptor:
             self.schedule(root, src='drain')
         elif op == 'drain1':
             self.drain1(root)
+        self.skip_completion_retries()
         nxt = self.peek()
         if nxt is None or nxt.k not in ('RET', 'ESC'):
             tags = {'C04', 'C11'} if was_blocked else {'C01', 'C02', 'C04', 'C06'}
+            if nxt is not None and nxt.k in ('G', 'A', 'EX') and not was_blocked:
+                tags = {'C01', 'C07'}
             self.reject(tags, 'surplus-record', 'RET', nxt)
         self.take()
         if nxt.k == 'ESC':
@@ -968,14 +994,10 @@ class Acceptor:
             self.enter_state(root, root.active[r], 'other', start_occ, tags)
             self.note_entered(root, r, root.active[r])
         root.processing = False
-        if not self.mp:
-            root.comp = list(range(root.n)) if root.has_completion else []
-            if root.has_completion:
-                self.schedule(root, after_handled=True)
-            else:
-                pass
-        else:
-            self.schedule(root, after_handled=True)
+        if not self.mp and not root.has_completion:
+            # back / back11: start() only runs the queues as part of its completion processing
+            return
+        self.schedule(root, after_handled=True)
 
     def stop(self, root):
         tags = {'C03'}
